@@ -27,7 +27,12 @@ def run(ctx):
     ctx.distinct |= {("client_names", i) for i in range(res["n"])}
     ctx.extra["reached_client_names"] = res["reach"]
     for f in res["findings"]:
+        if set(f["fields"]) & {"pi", "gate"} or set(f["fields"]) <= {"sa", "ns"}:
+            # the client's pointer / gate discipline is C19's business, its stop callback C07's: noted only
+            ctx.notes.append(f"client-level mismatch outside this property ({f['fields']}) seen in family client_names")
+            continue
         ctx.violation(f"Client/client_names/{f['cause']}/{'+'.join(f['fields'])}", {"kind": "client-trace", "family": "client_names", **f})
+    ctx.notes[:] = sorted(set(ctx.notes))[:20]
     ctx.assumptions.append("an empty / absent device name is accepted even when a name is expected (LegacyNoName reading, DESIGN 6)")
 
 
